@@ -22,6 +22,8 @@ THEOREMS = [
     "Mesa.Batch.C13_oneshot_parameters",
     "Mesa.Batch.C13_parallel_rows_by_run",
     "Mesa.Batch.C13_degenerate_limits",
+    "Mesa.Batch.C13_run_rows_exact",
+    "Mesa.Batch.C13_batch_run_exact",
 ]
 COUNTS = {"quick": 1500, "thorough": 30000}
 TRUSTED = [
